@@ -45,17 +45,17 @@ func SigHashOne() []byte {
 // SigHashForkID computes the replay-protected (BIP143-style) preimage and its
 // double SHA-256 for input idx (which must be in range) of tx.
 //
-//	 1. nVersion (4 LE)
-//	 2. hashPrevouts: sha256d of all outpoints, or 32 zero bytes with ANYONECANPAY
-//	 3. hashSequence: sha256d of all sequences, or zeros with ANYONECANPAY / NONE / SINGLE
-//	 4. outpoint of the signed input (32-byte hash in wire order + 4 LE index)
-//	 5. script code, length-prefixed
-//	 6. value of the spent output (8 LE)
-//	 7. nSequence of the signed input (4 LE)
-//	 8. hashOutputs: sha256d of all outputs (base type neither NONE nor SINGLE),
-//	    of output idx alone (SINGLE and idx < #outputs), else zeros
-//	 9. nLockTime (4 LE)
-//	10. hash type (4 LE)
+//  1. nVersion (4 LE)
+//  2. hashPrevouts: sha256d of all outpoints, or 32 zero bytes with ANYONECANPAY
+//  3. hashSequence: sha256d of all sequences, or zeros with ANYONECANPAY / NONE / SINGLE
+//  4. outpoint of the signed input (32-byte hash in wire order + 4 LE index)
+//  5. script code, length-prefixed
+//  6. value of the spent output (8 LE)
+//  7. nSequence of the signed input (4 LE)
+//  8. hashOutputs: sha256d of all outputs (base type neither NONE nor SINGLE),
+//     of output idx alone (SINGLE and idx < #outputs), else zeros
+//  9. nLockTime (4 LE)
+//  10. hash type (4 LE)
 //
 // The base type is hashType & 0x1f; every base type other than NONE and SINGLE
 // behaves as ALL.
